@@ -770,6 +770,241 @@ impl<T> HostMatcher<T> {
 }
 //@@ unrename IpMatcher
 
+// ================================================================ ip layer (a route with several ip constraints sits in several buckets)
+// SHIM: RouteIp is opaque here (unit rtr verifies its predicate); keys of the bucket map
+#[verifier::external_body] pub struct RouteIp { x: u8 }
+impl Clone for RouteIp { #[verifier::external_body] fn clone(&self) -> (r: Self) ensures r == *self { unimplemented!() } }
+#[verifier::external_body] pub broadcast proof fn axiom_routeip_key_model() ensures #[trigger] obeys_key_model::<RouteIp>() {}
+pub uninterp spec fn rips<T>(r: Route<T>) -> Option<Seq<RouteIp>>;
+pub open spec fn opt_ips(o: Option<&Vec<RouteIp>>) -> Option<Seq<RouteIp>> { match o { Some(v) => Some(v@), None => None } }
+impl<T> Route<T> {
+    #[verifier::external_body] pub fn ips(&self) -> (r: Option<&Vec<RouteIp>>) ensures opt_ips(r) == rips(*self) { unimplemented!() }
+}
+pub open spec fn ip_kf<T>() -> spec_fn(RouteIp, RouteRef<T>) -> bool { |k: RouteIp, x: RouteRef<T>| rips(*x) matches Some(v) && v.contains(k) }
+// removal / batch removal through a map of buckets: the stored-set part only (no bucket-disjointness needed)
+pub proof fn lemma_map_removed_holds<K, T, S: Store<T>>(m0: Map<K, S>, m1: Map<K, S>, id: Seq<char>, kf: spec_fn(K, RouteRef<T>) -> bool)
+    requires entries_removed(m0, m1, id), map_wf(m0), map_keyed(m0, kf),
+        forall|v: S| v.wf() && v.cnt() == 0 ==> forall|x: RouteRef<T>| !#[trigger] v.holds(x),
+    ensures map_wf(m1), map_keyed(m1, kf),
+        forall|y: RouteRef<T>| #![trigger map_holds(m1, y)] #![trigger map_holds(m0, y)] map_holds(m1, y) <==> map_holds(m0, y) && rid(*y) != id,
+{
+    assert forall|k: K, y: RouteRef<T>| m0.contains_key(k) && !m1.contains_key(k) && #[trigger] m0[k].holds(y) implies rid(*y) == id by {
+        let v1 = choose|v1: S| #[trigger] removed_rel2(m0[k], v1, id) && v1.cnt() == 0;
+        if rid(*y) != id { assert(v1.holds(y)); }
+    }
+    assert forall|y: RouteRef<T>| #![trigger map_holds(m1, y)] #![trigger map_holds(m0, y)] map_holds(m1, y) <==> map_holds(m0, y) && rid(*y) != id by {
+        if map_holds(m1, y) { let k = choose|k: K| m1.contains_key(k) && #[trigger] m1[k].holds(y); assert(m0.contains_key(k) && m0[k].holds(y)); }
+        if map_holds(m0, y) && rid(*y) != id { let k = choose|k: K| m0.contains_key(k) && #[trigger] m0[k].holds(y); assert(m1.contains_key(k)); assert(m1[k].holds(y)); }
+    }
+    assert forall|k: K, x: RouteRef<T>| m1.contains_key(k) && #[trigger] m1[k].holds(x) implies kf(k, x) by { assert(m0[k].holds(x)); }
+}
+// R8 outlines, ASSUMED contracts (trusted, listed):
+// (1) `self.matchers.entry(ip.clone()).or_insert_with(|| MethodMatcher::new(config.clone())).insert(route.clone());` — HashMap's Entry API with a
+//     closure has no Verus specification. Summary: the bucket of `ip` (created empty if absent) receives the route.
+#[verifier::external_body]
+pub fn outl_ip_bucket_insert<T>(m: &mut HashMap<RouteIp, Sub<T>>, ip: &RouteIp, config: &Arc<RouterConfig>, route: RouteRef<T>)
+    requires map_wf(old(m)@), old(m)@.contains_key(*ip) ==> old(m)@[*ip].cnt() < usize::MAX && forall|x: RouteRef<T>| old(m)@[*ip].holds(x) ==> rid(*x) != rid(*route),
+    ensures final(m)@.contains_key(*ip), final(m)@ == old(m)@.insert(*ip, final(m)@[*ip]), final(m)@[*ip].wf(),
+        forall|x: RouteRef<T>| #![trigger final(m)@[*ip].holds(x)] final(m)@[*ip].holds(x) <==> (old(m)@.contains_key(*ip) && old(m)@[*ip].holds(x)) || x == route,
+        final(m)@[*ip].cnt() == (if old(m)@.contains_key(*ip) { old(m)@[*ip].cnt() } else { 0 }) + 1,
+{
+    /* verbatim: self.matchers .entry(ip.clone()) .or_insert_with(|| MethodMatcher::new(config.clone())) .insert(route.clone()); */
+    unimplemented!()
+}
+// (2) the retain-with-captured-assignment statement of IpMatcher::remove (same shape as outl_retain_remove, RouteIp keys)
+#[verifier::external_body]
+pub fn outl_ip_retain_remove<T>(m: &mut HashMap<RouteIp, Sub<T>>, id: &str, removed: &mut Option<RouteRef<T>>)
+    requires map_wf(old(m)@), *old(removed) is None,
+    ensures entries_removed(old(m)@, final(m)@, id@),
+        *final(removed) matches Some(x) ==> rid(*x) == id@ && map_holds(old(m)@, x),
+        *final(removed) is None ==> !map_holds_id(old(m)@, id@),
+{
+    /* verbatim: self.matchers.retain(|_, matcher| { if let Some(value) = matcher.remove(id) { removed = Some(value); } !matcher.is_empty() }); */
+    unimplemented!()
+}
+//@@ rename MethodMatcher Sub
+//@@ item src/router/request_matcher/ip.rs :: struct IpMatcher
+impl<T> IpMatcher<T> {
+    pub open spec fn sholds(&self, x: RouteRef<T>) -> bool { self.no_matcher.holds(x) || map_holds(self.matchers@, x) }
+    // the counter is an upper bound of the number of stored routes (exact until a batch removal)
+    pub open spec fn counted(&self) -> bool { exists|s: Set<RouteRef<T>>| #[trigger] s.len() <= self.count && forall|x: RouteRef<T>| s.contains(x) <==> self.sholds(x) }
+    pub open spec fn swf(&self) -> bool {
+        &&& self.no_matcher.wf() && map_wf(self.matchers@)
+        &&& self.counted()
+        &&& forall|x: RouteRef<T>, y: RouteRef<T>| #[trigger] self.sholds(x) && #[trigger] self.sholds(y) && rid(*x) == rid(*y) ==> x == y
+        // bucket-key consistency: a route filed under range k lists k among its ip constraints; a route filed under "no ip" has none
+        &&& map_keyed(self.matchers@, ip_kf::<T>())
+        &&& forall|x: RouteRef<T>| #[trigger] self.no_matcher.holds(x) ==> rips(*x) is None
+    }
+}
+impl<T> Store<T> for IpMatcher<T> {
+    open spec fn holds(&self, x: RouteRef<T>) -> bool { self.sholds(x) }
+    open spec fn cnt(&self) -> nat { self.count as nat }
+    open spec fn wf(&self) -> bool { self.swf() }
+}
+pub proof fn lemma_ip_uniq_bridge<T>(n: IpMatcher<T>)
+    requires uniq(n),
+    ensures forall|x: RouteRef<T>, y: RouteRef<T>| #[trigger] n.sholds(x) && #[trigger] n.sholds(y) && rid(*x) == rid(*y) ==> x == y,
+{
+    assert forall|x: RouteRef<T>, y: RouteRef<T>| #[trigger] n.sholds(x) && #[trigger] n.sholds(y) && rid(*x) == rid(*y) implies x == y by { assert(n.holds(x) && n.holds(y)); }
+}
+// the properties the layer above relies on (lemma_sub_wf for this layer): they follow from wf()
+pub proof fn lemma_ip_wf<T>(s: IpMatcher<T>)
+    requires s.wf(),
+    ensures uniq(s), s.cnt() == 0 ==> forall|x: RouteRef<T>| !s.holds(x), s.cnt() <= usize::MAX,
+{
+    let w = choose|w: Set<RouteRef<T>>| #[trigger] w.len() <= s.count && forall|x: RouteRef<T>| w.contains(x) <==> s.sholds(x);
+    if s.count == 0 { assert forall|x: RouteRef<T>| !s.holds(x) by { if s.sholds(x) { assert(w.contains(x)); assert(w.len() > 0) by { if w.len() == 0 { assert(w =~= Set::<RouteRef<T>>::empty()); } } } } }
+}
+pub proof fn lemma_ip_counted_insert<T>(o: IpMatcher<T>, n: IpMatcher<T>, rt: RouteRef<T>)
+    requires o.counted(), n.count == o.count + 1, forall|x: RouteRef<T>| #![trigger n.sholds(x)] n.sholds(x) <==> o.sholds(x) || x == rt,
+    ensures n.counted(),
+{
+    let w = choose|w: Set<RouteRef<T>>| #[trigger] w.len() <= o.count && forall|x: RouteRef<T>| w.contains(x) <==> o.sholds(x);
+    let w2 = w.insert(rt);
+    assert(w2.len() <= n.count && forall|x: RouteRef<T>| w2.contains(x) <==> n.sholds(x));
+}
+pub proof fn lemma_ip_counted_sub<T>(o: IpMatcher<T>, n: IpMatcher<T>, dec: bool)
+    requires o.counted(), forall|x: RouteRef<T>| #[trigger] n.sholds(x) ==> o.sholds(x),
+        !dec ==> n.count == o.count,
+        dec ==> n.count + 1 == o.count && exists|x0: RouteRef<T>| o.sholds(x0) && !n.sholds(x0),
+    ensures n.counted(),
+{
+    let w = choose|w: Set<RouteRef<T>>| #[trigger] w.len() <= o.count && forall|x: RouteRef<T>| w.contains(x) <==> o.sholds(x);
+    let w2 = w.filter(|x: RouteRef<T>| n.sholds(x));
+    w.lemma_len_filter(|x: RouteRef<T>| n.sholds(x));
+    assert forall|x: RouteRef<T>| w2.contains(x) <==> n.sholds(x) by {}
+    if dec {
+        let x0 = choose|x0: RouteRef<T>| o.sholds(x0) && !n.sholds(x0);
+        assert(w.contains(x0) && !w2.contains(x0));
+        assert(w2.subset_of(w.remove(x0)));
+        vstd::set_lib::lemma_len_subset(w2, w.remove(x0));
+    }
+    assert(w2.len() <= n.count);
+}
+
+pub proof fn lemma_ip_inserted<T>(o: IpMatcher<T>, n: IpMatcher<T>, rt: RouteRef<T>)
+    requires o.wf(), forall|x: RouteRef<T>| o.holds(x) ==> rid(*x) != rid(*rt), n.count == o.count + 1,
+        n.no_matcher.wf(), map_wf(n.matchers@), map_keyed(n.matchers@, ip_kf::<T>()),
+        forall|x: RouteRef<T>| #![trigger n.sholds(x)] n.sholds(x) <==> o.sholds(x) || x == rt,
+        forall|x: RouteRef<T>| #[trigger] n.no_matcher.holds(x) ==> rips(*x) is None,
+    ensures inserted_rel(o, n, rt),
+{
+    lemma_ip_counted_insert(o, n, rt);
+    assert forall|x: RouteRef<T>| #![trigger n.holds(x)] #![trigger o.holds(x)] n.holds(x) <==> o.holds(x) || x == rt by {}
+    lemma_uniq_inserted(o, n, rt); lemma_ip_uniq_bridge(n);
+}
+
+pub proof fn lemma_ip_removed_any<T>(o: IpMatcher<T>, n: IpMatcher<T>, id: Seq<char>, x0: RouteRef<T>)
+    requires o.wf(), n.matchers@ == o.matchers@, removed_rel(o.no_matcher, n.no_matcher, id, Some(x0)), n.count + 1 == o.count,
+    ensures removed_rel(o, n, id, Some(x0)),
+{
+    assert(o.holds(x0));
+    assert forall|y: RouteRef<T>| #![trigger n.holds(y)] #![trigger o.holds(y)] n.holds(y) <==> o.holds(y) && rid(*y) != id by { if o.holds(y) && rid(*y) == id { assert(y == x0); } }
+    lemma_uniq_subset(o, n); lemma_ip_uniq_bridge(n);
+    assert(o.sholds(x0) && !n.sholds(x0));
+    lemma_ip_counted_sub(o, n, true);
+    assert forall|x: RouteRef<T>| #[trigger] n.no_matcher.holds(x) implies rips(*x) is None by { assert(o.no_matcher.holds(x)); }
+}
+pub proof fn lemma_ip_removed<T>(o: IpMatcher<T>, n: IpMatcher<T>, id: Seq<char>, r: Option<RouteRef<T>>)
+    requires o.wf(), removed_rel(o.no_matcher, n.no_matcher, id, None::<RouteRef<T>>), entries_removed(o.matchers@, n.matchers@, id),
+        r matches Some(x) ==> rid(*x) == id && map_holds(o.matchers@, x), r is None ==> !map_holds_id(o.matchers@, id),
+        n.count + (if r is Some { 1int } else { 0int }) == o.count,
+    ensures removed_rel(o, n, id, r),
+{
+    lemma_sub_empty::<T>();
+    lemma_map_removed_holds(o.matchers@, n.matchers@, id, ip_kf::<T>());
+    assert forall|y: RouteRef<T>| #![trigger n.holds(y)] #![trigger o.holds(y)] n.holds(y) <==> o.holds(y) && rid(*y) != id by {
+        if o.no_matcher.holds(y) { assert(holds_id(o.no_matcher, id) || rid(*y) != id); }
+    }
+    if r is Some { let x = r.unwrap(); assert(o.holds(x)); assert(o.sholds(x) && !n.sholds(x)); }
+    else {
+        assert forall|y: RouteRef<T>| #[trigger] o.holds(y) implies rid(*y) != id by {
+            if o.no_matcher.holds(y) { assert(holds_id(o.no_matcher, id) || rid(*y) != id); }
+            if map_holds(o.matchers@, y) { let k = choose|k: RouteIp| o.matchers@.contains_key(k) && #[trigger] o.matchers@[k].holds(y); assert(map_holds_id(o.matchers@, id) || rid(*y) != id); }
+        }
+    }
+    lemma_uniq_subset(o, n); lemma_ip_uniq_bridge(n);
+    lemma_ip_counted_sub(o, n, r is Some);
+    assert forall|x: RouteRef<T>| #[trigger] n.no_matcher.holds(x) implies rips(*x) is None by { assert(o.no_matcher.holds(x)); }
+}
+pub proof fn lemma_ip_batched<T>(o: IpMatcher<T>, n: IpMatcher<T>, ids: Set<String>)
+    requires o.wf(), batched_rel(o.no_matcher, n.no_matcher, ids), entries_batched(o.matchers@, n.matchers@, ids), n.count == o.count,
+    ensures batched_rel(o, n, ids),
+{
+    lemma_sub_empty::<T>();
+    lemma_map_batched(o.matchers@, n.matchers@, ids, ip_kf::<T>());
+    assert forall|y: RouteRef<T>| #![trigger n.holds(y)] #![trigger o.holds(y)] n.holds(y) <==> o.holds(y) && !ids_has(ids, rid(*y)) by {}
+    lemma_uniq_subset(o, n); lemma_ip_uniq_bridge(n);
+    lemma_ip_counted_sub(o, n, false);
+    assert forall|x: RouteRef<T>| #[trigger] n.no_matcher.holds(x) implies rips(*x) is None by { assert(o.no_matcher.holds(x)); }
+}
+impl<T> IpMatcher<T> {
+    //@@ fn src/router/request_matcher/ip.rs :: impl <T>IpMatcher<T> / fn new -> r
+    //@| ensures r.wf(), r.cnt() == 0, forall|x: RouteRef<T>| !r.holds(x),
+    //@| entry broadcast use group_hash_axioms; broadcast use axiom_routeip_key_model;
+    //@| exit proof { let w = Set::<RouteRef<T>>::empty(); assert(w.len() <= vf_ret.count && forall|x: RouteRef<T>| w.contains(x) <==> vf_ret.sholds(x)); }
+
+    // domain restrictions (stated): fewer than 2^64 insertions per bucket; the ip constraints of a route are pairwise distinct and, when
+    // present, non-empty (Rule::route_ips never yields Some(empty))
+    //@@ fn src/router/request_matcher/ip.rs :: impl <T>IpMatcher<T> / fn insert
+    //@| requires old(self).wf(), old(self).cnt() < usize::MAX, forall|x: RouteRef<T>| old(self).holds(x) ==> rid(*x) != rid(*route),
+    //@|     old(self).no_matcher.cnt() < usize::MAX, forall|k: RouteIp| old(self).matchers@.contains_key(k) ==> (#[trigger] old(self).matchers@[k]).cnt() < usize::MAX,
+    //@|     rips(*route) matches Some(v) ==> v.len() > 0 && v.no_duplicates(),
+    //@| ensures inserted_rel(*old(self), *final(self), route),
+    //@| outline `self.matchers .entry(ip.clone()) .or_insert_with(|| MethodMatcher::new(config.clone())) .insert(route.clone());` => `outl_ip_bucket_insert(&mut self.matchers, ip, &config, route.clone());`
+    //@| opt r6i:0
+    //@| entry broadcast use group_hash_axioms; broadcast use axiom_routeip_key_model; broadcast use axiom_arc_cloned;
+    //@|     let ghost m0 = self.matchers@; let ghost rt = route; let ghost kf = ip_kf::<T>();
+    //@| forlabel 0: it
+    //@| loopbefore 0: let ghost iv = ips@;
+    //@| loop 0: invariant iter_ref_ok(it.history@, it.index@, it.snapshot@.remaining(), iv), rips(*rt) == Some(iv), iv.no_duplicates(), route == rt,
+    //@|     self.no_matcher == old(self).no_matcher, self.count == old(self).count + 1, kf == ip_kf::<T>(), m0 == old(self).matchers@,
+    //@|     old(self).wf(), forall|x: RouteRef<T>| old(self).holds(x) ==> rid(*x) != rid(*rt), forall|k: RouteIp| m0.contains_key(k) ==> (#[trigger] m0[k]).cnt() < usize::MAX,
+    //@|     map_wf(self.matchers@), map_keyed(self.matchers@, kf),
+    //@|     forall|x: RouteRef<T>| #![trigger map_holds(self.matchers@, x)] map_holds(self.matchers@, x) <==> map_holds(m0, x) || (it.index@ > 0 && x == rt),
+    //@|     forall|j: int| it.index@ <= j < iv.len() && self.matchers@.contains_key(#[trigger] iv[j]) ==> m0.contains_key(iv[j]) && self.matchers@[iv[j]] == m0[iv[j]],
+    //@| loophead 0: let ghost m1 = self.matchers@; let ghost k = it.index@ as int;
+    //@|     proof { assert(*ip == iv[k]);
+    //@|         if m1.contains_key(*ip) { assert(m1[*ip] == m0[*ip]); assert forall|x: RouteRef<T>| m1[*ip].holds(x) implies rid(*x) != rid(*route) by { assert(m0[*ip].holds(x)); assert(map_holds(m0, x)); assert(old(self).sholds(x)); assert(old(self).holds(x)); } } }
+    //@| looptail 0: proof {
+    //@|     let key = iv[k];
+    //@|     assert(kf(key, rt)) by { assert(iv.contains(key)); }
+    //@|     lemma_map_inserted(m1, self.matchers@, key, rt, kf);
+    //@|     assert forall|x: RouteRef<T>| #![trigger map_holds(self.matchers@, x)] map_holds(self.matchers@, x) <==> map_holds(m0, x) || x == rt by { assert(map_holds(self.matchers@, x) <==> map_holds(m1, x) || x == rt); }
+    //@|     assert forall|j: int| k + 1 <= j < iv.len() && self.matchers@.contains_key(#[trigger] iv[j]) implies m0.contains_key(iv[j]) && self.matchers@[iv[j]] == m0[iv[j]] by { assert(iv[j] != key); assert(m1.contains_key(iv[j])); }
+    //@| }
+    //@| exit proof {
+    //@|     assert forall|x: RouteRef<T>| #![trigger self.sholds(x)] self.sholds(x) <==> old(self).sholds(x) || x == rt by {}
+    //@|     assert forall|x: RouteRef<T>| #[trigger] self.no_matcher.holds(x) implies rips(*x) is None by { if x != rt { assert(old(self).no_matcher.holds(x)); } }
+    //@|     lemma_ip_inserted(*old(self), *self, rt);
+    //@| }
+
+    //@@ fn src/router/request_matcher/ip.rs :: impl <T>IpMatcher<T> / fn remove -> r
+    //@| requires old(self).wf(),
+    //@| ensures removed_rel(*old(self), *final(self), id@, r),
+    //@| outline `self.matchers.retain(|_, matcher| { if let Some(value) = matcher.remove(id) { removed = Some(value); } !matcher.is_empty() });` => `outl_ip_retain_remove(&mut self.matchers, id, &mut removed);`
+    //@| entry broadcast use group_hash_axioms; broadcast use axiom_routeip_key_model;
+    //@|     proof { lemma_ip_wf(*self); }
+    //@| before `self.count -= 1;`#0: proof { assert(old(self).no_matcher.holds(removed.unwrap())); assert(old(self).sholds(removed.unwrap())); assert(old(self).holds(removed.unwrap())); }
+    //@| before `return removed;`: proof { lemma_ip_removed_any(*old(self), *self, id@, removed.unwrap()); }
+    //@| before `if removed.is_some() {`#1: proof { if removed is Some { assert(old(self).sholds(removed.unwrap())); assert(old(self).holds(removed.unwrap())); } }
+    //@| exit proof { lemma_ip_removed(*old(self), *self, id@, removed); }
+
+    //@@ fn src/router/request_matcher/ip.rs :: impl <T>IpMatcher<T> / fn batch_remove -> r
+    //@| requires old(self).wf(),
+    //@| ensures batched_rel(*old(self), *final(self), ids@),
+    //@| closure `|_, matcher|` => `|_k: &RouteIp, matcher: &mut Sub<T>| -> (b: bool) requires old(matcher).wf() ensures batched_rel(*old(matcher), *final(matcher), ids@), !b ==> final(matcher).cnt() == 0`
+    //@| entry broadcast use group_hash_axioms; broadcast use axiom_routeip_key_model;
+    //@| exit proof { lemma_ip_batched(*old(self), *self, ids@); }
+
+    //@@ fn src/router/request_matcher/ip.rs :: impl <T>IpMatcher<T> / fn len -> r
+    //@| ensures r == self.cnt(),
+    //@@ fn src/router/request_matcher/ip.rs :: impl <T>IpMatcher<T> / fn is_empty -> r
+    //@| ensures r == (self.cnt() == 0),
+}
+//@@ unrename MethodMatcher
+
 // ================================================================ Router (src/router/mod.rs)
 //@@ rename SchemeMatcher Sub
 //@@ item src/router/mod.rs :: struct Router
